@@ -472,6 +472,8 @@ func c02Check(r *ev.Run, rng *rand.Rand, id string, c c02Case, nPerm int) int64 
 			mftm0 = m
 		} else if m.Offset != mftm0.Offset {
 			report("measurements.FaultTolerantMidpoint", "wrong-value:order dependent", map[string]any{"got": g, "first": int64(mftm0.Offset)})
+		} else if !m.Timestamp.Equal(mftm0.Timestamp) {
+			report("measurements.FaultTolerantMidpoint", "wrong-value:combined timestamp depends on the order of the inputs", map[string]any{"got": m.Timestamp.String(), "first": mftm0.Timestamp.String()})
 		}
 		checkPerm("measurements.FaultTolerantMidpoint", ms)
 		ms = mk()
@@ -495,6 +497,8 @@ func c02Check(r *ev.Run, rng *rand.Rand, id string, c c02Case, nPerm int) int64 
 			mmed0 = m
 		} else if m.Offset != mmed0.Offset {
 			report("measurements.Median", "wrong-value:order dependent", map[string]any{"got": g, "first": int64(mmed0.Offset)})
+		} else if !m.Timestamp.Equal(mmed0.Timestamp) {
+			report("measurements.Median", "wrong-value:combined timestamp depends on the order of the inputs", map[string]any{"got": m.Timestamp.String(), "first": mmed0.Timestamp.String()})
 		}
 		checkPerm("measurements.Median", ms)
 	}
